@@ -190,6 +190,10 @@ func loadKnown(path string) []knownEntry {
 }
 
 func main() {
+	if d := os.Getenv("GOSYM_VERIF"); d != "" {
+		// a snapshot of /verif (vp run): harnesses, checks.json, known findings, replays relative to it
+		verifDir = d
+	}
 	if d := os.Getenv("GOSYM_REPO"); d != "" {
 		repoDir = d
 	}
@@ -238,7 +242,25 @@ func cmdRun(args []string) int {
 	knownPath := fs.String("known", filepath.Join(verifDir, "known_findings.txt"), "known findings file")
 	noNative := fs.Bool("no-native", false, "skip native replay")
 	verbose := fs.Bool("v", false, "verbose")
+	xcheck := fs.Int("xcheck", -1, "solver differential: worker scripts per harness config replayed on z3-new and cvc5 (-1: 0 quick, 3 thorough)")
+	xcap := fs.Int("xcheck-cap", 120, "solver differential: seconds per replayed script")
 	fs.Parse(args)
+	if *xcheck < 0 {
+		*xcheck = 0
+		if *tier == "thorough" {
+			*xcheck = 3
+		}
+	}
+	ownLogDir := ""
+	if *xcheck > 0 && *logDir == "" {
+		d, err := os.MkdirTemp("", "gosym-xcheck-")
+		if err == nil {
+			ownLogDir = d
+			*logDir = d
+			defer os.RemoveAll(d)
+		}
+	}
+	xtotal := map[string]*XStats{}
 	t0 := time.Now()
 
 	var all map[string]PropertySpec
@@ -332,6 +354,52 @@ func cmdRun(args []string) int {
 			job.Explore(*workers, *solver, []string{"-in"}, *logDir)
 			res := &jobResult{Spec: hs, Config: cfg, Job: job, Wall: time.Since(tj).Seconds()}
 			results = append(results, res)
+			if *xcheck > 0 && *logDir != "" {
+				var logs []string
+				if des, err := os.ReadDir(*logDir); err == nil {
+					pre := "solver-" + sanitize(job.Name) + "-"
+					for _, de := range des {
+						if strings.HasPrefix(de.Name(), pre) && strings.HasSuffix(de.Name(), ".smt2") {
+							logs = append(logs, filepath.Join(*logDir, de.Name()))
+						}
+					}
+				}
+				xs, xp := crossCheckLogs(logs, *xcheck, time.Duration(*xcap)*time.Second)
+				for _, st := range xs {
+					t := xtotal[st.Solver]
+					if t == nil {
+						t = &XStats{Solver: st.Solver}
+						xtotal[st.Solver] = t
+					}
+					t.Scripts += st.Scripts
+					t.Compared += st.Compared
+					t.Agree += st.Agree
+					t.SecondaryUnk += st.SecondaryUnk
+					t.Disagree += st.Disagree
+					t.Truncated += st.Truncated
+					t.Seconds += st.Seconds
+				}
+				for _, m := range xp {
+					problems = append(problems, job.Name+": "+m)
+					if ownLogDir != "" {
+						// keep the scripts of a disagreement for inspection
+						keep := filepath.Join(verifDir, "replays", "xcheck")
+						os.MkdirAll(keep, 0o755)
+						for _, l := range logs {
+							if strings.Contains(m, l) {
+								if b, err := os.ReadFile(l); err == nil {
+									os.WriteFile(filepath.Join(keep, filepath.Base(l)), b, 0o644)
+								}
+							}
+						}
+					}
+				}
+				if ownLogDir != "" {
+					for _, l := range logs {
+						os.Remove(l)
+					}
+				}
+			}
 			if *verbose {
 				fmt.Fprintf(os.Stderr, "[%s] paths=%d dropped=%d queries sat/unsat/unk=%d/%d/%d cex=%d wall=%.1fs\n", job.Name, job.Paths, job.Dropped,
 					job.Queries[Sat], job.Queries[Unsat], job.Queries[Unknown], len(job.Cexs), res.Wall)
@@ -386,7 +454,7 @@ func cmdRun(args []string) int {
 			}
 		}
 	}
-	writeEvidence(*out, *prop, *tier, *seed, results, ps, wall, violations, problems, map[string]interface{}{"load_s": loadSecs, "known_findings_hit": knownHits, "selftest_traces_identical": selfOK, "selftests": selfDetails})
+	writeEvidence(*out, *prop, *tier, *seed, results, ps, wall, violations, problems, map[string]interface{}{"load_s": loadSecs, "known_findings_hit": knownHits, "selftest_traces_identical": selfOK, "selftests": selfDetails, "solver_differential": xsummary(xtotal, *xcheck)})
 	for _, l := range knownLines {
 		fmt.Println(l)
 	}
@@ -408,6 +476,19 @@ func cmdRun(args []string) int {
 	}
 	fmt.Printf("OK property=%s tier=%s harness-configs=%d wall=%.1fs\n", *prop, *tier, len(results), wall)
 	return 0
+}
+
+func xsummary(t map[string]*XStats, n int) interface{} {
+	if n == 0 {
+		return "not run in this tier (thorough tier replays worker scripts on z3 5.x and cvc5)"
+	}
+	var out []XStats
+	for _, v := range t {
+		out = append(out, *v)
+	}
+	sort.Slice(out, func(i, k int) bool { return out[i].Solver < out[k].Solver })
+	return map[string]interface{}{"scripts_per_harness_config": n, "solvers": out,
+		"note": "each script is the complete incremental SMT-LIB2 session of one worker (branch-feasibility and assertion queries); verdict sequences compared query by query with the deciding z3 4.8.12"}
 }
 
 func cfgString(cfg map[string]int64) string {
